@@ -47,6 +47,22 @@ inductive Conf (std : Std) : Ty → PyVal → Prop
   | inst (ci : ClassInfo) (ftys : List (S × Ty)) (vals : List PyVal) : PlainCls ci ftys → vals.length = ftys.length →
       (∀ p ∈ ftys.zip vals, Conf std p.1.2 p.2) →
       Conf std (.cls ci ftys) (.inst ci ((ftys.map (·.1)).zip vals))
+  | bytes (b : List Nat) : Conf std .bytes (.bytes false b)
+  | bytearray (b : List Nat) : Conf std .bytearray (.bytes true b)
+  | set (t : Ty) (xs : List PyVal) : xs.all PyVal.hashable = true → dedupKeep xs = xs → (∀ x ∈ xs, Conf std t x) →
+      Conf std (.seq .set t) (.seq .set xs)
+  | frozenset (t : Ty) (xs : List PyVal) : xs.all PyVal.hashable = true → dedupKeep xs = xs → (∀ x ∈ xs, Conf std t x) →
+      Conf std (.seq .frozenset t) (.seq .frozenset xs)
+  | tuple (ts : List Ty) (xs : List PyVal) : ts ≠ [] → xs.length = ts.length → (∀ p ∈ ts.zip xs, Conf std p.1 p.2) →
+      Conf std (.tuple ts) (.tuple xs)
+  | defaultdict (t : Ty) (kvs : List (S × PyVal)) : (kvs.map (·.1)).Nodup → (∀ p ∈ kvs, Conf std t p.2) →
+      Conf std (.map .defaultdict .str t) (.map .defaultdict (kvs.map (fun p => (.str p.1, p.2))))
+  | ordereddict (t : Ty) (kvs : List (S × PyVal)) : (kvs.map (·.1)).Nodup → (∀ p ∈ kvs, Conf std t p.2) →
+      Conf std (.map .ordereddict .str t) (.map .ordereddict (kvs.map (fun p => (.str p.1, p.2))))
+  | literal (vs : List Lit) (l : Lit) : l ∈ vs → jEqLit l.toJ l = true → Conf std (.literal vs) l.toPy
+  | ntuple (name : S) (fields : List (S × Ty × Option Dflt)) (xs : List PyVal) : xs.length = fields.length →
+      (∀ p ∈ (fields.map (·.2.1)).zip xs, Conf std p.1 p.2) →
+      Conf std (.ntuple name fields) (.ntuple name (fields.map (·.1)) xs)
 
 /-- the round-trip statement for one value below the v1 root -/
 def RT1 (std : Std) (t : Ty) (v : PyVal) : Prop :=
@@ -250,6 +266,177 @@ theorem rt_dict (std : Std) (t : Ty) (kvs : List (S × PyVal)) (hnd : (kvs.map (
 /-- the key a field is dumped under and looked up under -/
 def ckey (n : S) : S := (toCamel n).getD n
 
+/-! ### further kinds: bytes / bytearray, set / frozenset, fixed tuples, defaultdict / OrderedDict, Literal, NamedTuple -/
+
+theorem dump_bytes (std : Std) (m : Bool) (b : List Nat) : dumpV std false cV1 (.bytes m b) = .ok (.str (std.b64encode b)) := by
+  simp [dumpV, dumpScalar, pure, Except.pure]
+
+theorem rt_bytes (std : Std) (laws : StdLaws std) (b : List Nat) : RT1 std .bytes (.bytes false b) := by
+  intro d h; rw [dump_bytes] at h; cases h
+  have htj : toJ (.str (std.b64encode b)) = .str (std.b64encode b) := by rw [toJ]
+  rw [htj, loadV1]
+  simp [v1Bytes, laws.b64_rt b, pure, Except.pure]
+
+theorem rt_bytearray (std : Std) (laws : StdLaws std) (b : List Nat) : RT1 std .bytearray (.bytes true b) := by
+  intro d h; rw [dump_bytes] at h; cases h
+  have htj : toJ (.str (std.b64encode b)) = .str (std.b64encode b) := by rw [toJ]
+  rw [htj, loadV1]
+  simp [v1Bytes, laws.b64_rt b, pure, Except.pure]
+
+theorem rt_set (std : Std) (t : Ty) (xs : List PyVal) (hh : xs.all PyVal.hashable = true)
+    (hd' : dedupKeep xs = xs) (ih : ∀ x ∈ xs, RT1 std t x) : RT1 std (.seq .set t) (.seq .set xs) := by
+  intro d h
+  rw [dumpV_set] at h
+  cases hd : dumpList std false cV1 xs with
+  | error e => simp [hd, Except.map] at h
+  | ok ds =>
+    simp [hd, Except.map] at h; subst h
+    have htj : toJ (.list ds) = .list (toJList ds) := by rw [toJ]
+    rw [htj, loadV1]
+    simp only [jIter, bind, Except.bind, mapME_list std t xs ds ih hd, mkSeq, hh, if_true, hd', pure, Except.pure, Except.mapError]
+
+theorem rt_frozenset (std : Std) (t : Ty) (xs : List PyVal) (hh : xs.all PyVal.hashable = true)
+    (hd' : dedupKeep xs = xs) (ih : ∀ x ∈ xs, RT1 std t x) : RT1 std (.seq .frozenset t) (.seq .frozenset xs) := by
+  intro d h
+  rw [dumpV_frozenset] at h
+  cases hd : dumpList std false cV1 xs with
+  | error e => simp [hd, Except.map] at h
+  | ok ds =>
+    simp [hd, Except.map] at h; subst h
+    have htj : toJ (.list ds) = .list (toJList ds) := by rw [toJ]
+    rw [htj, loadV1]
+    simp only [jIter, bind, Except.bind, mapME_list std t xs ds ih hd, mkSeq, hh, if_true, hd', pure, Except.pure, Except.mapError]
+
+/-- the generated element expressions `e_k(v1[k])` of a fixed-length tuple, from position `pre.length` on -/
+theorem v1Tuple_ok (std : Std) : ∀ (ts : List Ty) (xs : List PyVal) (ds : List DVal) (pre : List JVal), xs.length = ts.length →
+    (∀ p ∈ ts.zip xs, RT1 std p.1 p.2) → dumpList std false cV1 xs = .ok ds →
+    v1Tuple std cV1 ts pre.length (.list (pre ++ toJList ds)) = .ok xs
+  | [], xs, ds, pre, hl, _, h => by
+    have : xs = [] := by simpa using hl
+    subst this
+    simp only [dumpList, pure, Except.pure, Except.ok.injEq] at h; subst h; rfl
+  | t :: ts, [], ds, pre, hl, _, _ => by simp at hl
+  | t :: ts, x :: xs, ds, pre, hl, ih, h => by
+    simp only [dumpList, bind, Except.bind] at h
+    split at h
+    · simp at h
+    · next y hy =>
+      split at h
+      · simp at h
+      · next ys hys =>
+        simp only [pure, Except.pure, Except.ok.injEq] at h; subst h
+        have h1 := ih (t, x) (by simp) y hy
+        have h2 := v1Tuple_ok std ts xs ys (pre ++ [toJ y]) (by simpa using hl) (fun p hp => ih p (by simp [hp])) hys
+        simp only at h1
+        have hidx : jIndex (.list (pre ++ toJList (y :: ys))) pre.length = some (toJ y) := by
+          simp [jIndex, toJList]
+        have happ : pre ++ toJList (y :: ys) = (pre ++ [toJ y]) ++ toJList ys := by simp [toJList]
+        rw [v1Tuple, hidx]
+        simp only [h1, bind, Except.bind]
+        rw [happ]
+        have hlen : (pre ++ [toJ y]).length = pre.length + 1 := by simp
+        rw [hlen] at h2
+        simp only [h2, pure, Except.pure]
+
+theorem rt_tuple (std : Std) (ts : List Ty) (xs : List PyVal) (hne : ts ≠ []) (hl : xs.length = ts.length)
+    (ih : ∀ p ∈ ts.zip xs, RT1 std p.1 p.2) : RT1 std (.tuple ts) (.tuple xs) := by
+  intro d h
+  rw [dumpV_tuple] at h
+  cases hd : dumpList std false cV1 xs with
+  | error e => simp [hd, Except.map] at h
+  | ok ds =>
+    simp [hd, Except.map] at h; subst h
+    have htj : toJ (.tuple ds) = .list (toJList ds) := by rw [toJ]
+    have hemp : ts.isEmpty = false := by cases ts <;> simp_all
+    have h0 := v1Tuple_ok std ts xs ds [] hl ih hd
+    simp only [List.length_nil, List.nil_append] at h0
+    rw [htj, loadV1]
+    simp only [hemp, Bool.false_eq_true, if_false, h0, bind, Except.bind, pure, Except.pure]
+
+theorem rt_mapk (std : Std) (k : MapKind) (ord : Bool) (t : Ty) (kvs : List (S × PyVal))
+    (hdump : ∀ kvs', dumpV std false cV1 (.map k kvs') = (dumpPairs std false cV1 kvs').map (DVal.dict ord))
+    (hnd : (kvs.map (·.1)).Nodup)
+    (ih : ∀ p ∈ kvs, RT1 std t p.2) : RT1 std (.map k .str t) (.map k (kvs.map pyPair)) := by
+  intro d h
+  rw [hdump] at h
+  cases hd : dumpPairs std false cV1 (kvs.map pyPair) with
+  | error e => simp [hd, Except.map] at h
+  | ok ps =>
+    simp [hd, Except.map] at h; subst h
+    have hm := mapME_pairs std t kvs ps ih hd
+    have hall : (kvs.map pyPair).all (fun p => p.1.hashable) = true := by
+      simp [List.all_eq_true, PyVal.hashable]
+    have hfold := foldl_dictInsert kvs [] (by simpa using hnd)
+    have htj : toJ (.dict ord ps) = .dict (toJPairs ps) := by rw [toJ]
+    rw [htj, loadV1]
+    show (do let ps ← mapME (pairLoader std t) (toJPairs ps); (mkMap k ps).mapError v1Wrap) = _
+    simp only [hm, bind, Except.bind, mkMap, hall, if_true, pure, Except.pure, Except.mapError]
+    simp only [List.map_nil, List.nil_append] at hfold
+    rw [hfold]
+
+theorem litJ_toPy (l : Lit) : l.toJ.toPy = l.toPy := by
+  cases l <;> rfl
+
+theorem rt_literal (std : Std) (vs : List Lit) (l : Lit) (hm : l ∈ vs) (hr : jEqLit l.toJ l = true) :
+    RT1 std (.literal vs) l.toPy := by
+  intro d h
+  rw [dump_lit] at h; cases h
+  rw [toJ_litToD, loadV1]
+  unfold v1Literal
+  have hany : vs.any (fun l' => jEqLit l.toJ l') = true := List.any_eq_true.2 ⟨l, hm, hr⟩
+  simp only [lit_hashable, Bool.not_true, Bool.false_eq_true, if_false, hany, if_true, litJ_toPy, pure, Except.pure]
+
+/-- the positional field expressions of a NamedTuple, from position `pre.length` on -/
+theorem v1NtSeq_ok (std : Std) (name : S) : ∀ (fields : List (S × Ty × Option Dflt)) (xs : List PyVal) (ds : List DVal) (pre : List JVal),
+    xs.length = fields.length → (∀ p ∈ (fields.map (·.2.1)).zip xs, RT1 std p.1 p.2) → dumpList std false cV1 xs = .ok ds →
+    v1NtSeq std cV1 name fields pre.length (pre.length + ds.length) (.list (pre ++ toJList ds)) = .ok xs
+  | [], xs, ds, pre, hl, _, h => by
+    have : xs = [] := by simpa using hl
+    subst this
+    simp only [dumpList, pure, Except.pure, Except.ok.injEq] at h; subst h; rfl
+  | f :: fs, [], ds, pre, hl, _, _ => by simp at hl
+  | (n, t, dd) :: fs, x :: xs, ds, pre, hl, ih, h => by
+    simp only [dumpList, bind, Except.bind] at h
+    split at h
+    · simp at h
+    · next y hy =>
+      split at h
+      · simp at h
+      · next ys hys =>
+        simp only [pure, Except.pure, Except.ok.injEq] at h; subst h
+        have h1 := ih (t, x) (by simp) y hy
+        have h2 := v1NtSeq_ok std name fs xs ys (pre ++ [toJ y]) (by simpa using hl) (fun p hp => ih p (by simp [hp])) hys
+        simp only at h1
+        have hidx : jIndex (.list (pre ++ toJList (y :: ys))) pre.length = some (toJ y) := by
+          simp [jIndex, toJList]
+        have happ : pre ++ toJList (y :: ys) = (pre ++ [toJ y]) ++ toJList ys := by simp [toJList]
+        have hlt : pre.length < pre.length + (y :: ys).length := by simp
+        rw [v1NtSeq, if_pos hlt, hidx]
+        simp only [h1, bind, Except.bind]
+        rw [happ]
+        have hlen : (pre ++ [toJ y]).length = pre.length + 1 := by simp
+        have hn : pre.length + (y :: ys).length = pre.length + 1 + ys.length := by simp; omega
+        rw [hlen] at h2
+        rw [hn]
+        simp only [h2, pure, Except.pure]
+
+theorem rt_ntuple (std : Std) (name : S) (fields : List (S × Ty × Option Dflt)) (xs : List PyVal)
+    (hl : xs.length = fields.length) (ih : ∀ p ∈ (fields.map (·.2.1)).zip xs, RT1 std p.1 p.2) :
+    RT1 std (.ntuple name fields) (.ntuple name (fields.map (·.1)) xs) := by
+  intro d h
+  rw [dumpV_ntuple] at h
+  cases hd : dumpList std false cV1 xs with
+  | error e => simp [hd, Except.map] at h
+  | ok ds =>
+    simp [hd, Except.map] at h; subst h
+    have htj : toJ (.ntuple name ds) = .list (toJList ds) := by rw [toJ]
+    have h0 := v1NtSeq_ok std name fields xs ds [] hl ih hd
+    simp only [List.length_nil, List.nil_append, Nat.zero_add] at h0
+    rw [htj, loadV1]
+    · simp only [jLen, toJList_length, h0, bind, Except.bind, hl, List.drop_length, List.filterMap_nil, List.append_nil,
+        pure, Except.pure]
+    · intro kvs hk; cases hk
+
 theorem dump_nonnull (std : Std) (t : Ty) (v : PyVal) (hc : Conf std t v) (hn : nonNullTy t = true) (d : DVal)
     (h : dumpV std false cV1 v = .ok d) : toJ d ≠ .null := by
   cases hc with
@@ -287,6 +474,33 @@ theorem dump_nonnull (std : Std) (t : Ty) (v : PyVal) (hc : Conf std t v) (hn : 
       subst h
       unfold finishInst
       split <;> simp [toJ]
+  | bytes b => simp [nonNullTy] at hn
+  | bytearray b => simp [nonNullTy] at hn
+  | set t xs _ _ _ =>
+    rw [dumpV_set] at h
+    cases hd : dumpList std false cV1 xs <;> simp [hd, Except.map] at h
+    subst h; simp [toJ]
+  | frozenset t xs _ _ _ =>
+    rw [dumpV_frozenset] at h
+    cases hd : dumpList std false cV1 xs <;> simp [hd, Except.map] at h
+    subst h; simp [toJ]
+  | tuple ts xs _ _ _ =>
+    rw [dumpV_tuple] at h
+    cases hd : dumpList std false cV1 xs <;> simp [hd, Except.map] at h
+    subst h; simp [toJ]
+  | defaultdict t kvs _ _ =>
+    rw [dumpV_defaultdict] at h
+    cases hd : dumpPairs std false cV1 (kvs.map (fun p => (PyVal.str p.1, p.2))) <;> simp [hd, Except.map] at h
+    subst h; simp [toJ]
+  | ordereddict t kvs _ _ =>
+    rw [dumpV_ordereddict] at h
+    cases hd : dumpPairs std false cV1 (kvs.map (fun p => (PyVal.str p.1, p.2))) <;> simp [hd, Except.map] at h
+    subst h; simp [toJ]
+  | literal vs l _ _ => simp [nonNullTy] at hn
+  | ntuple name fields xs _ _ =>
+    rw [dumpV_ntuple] at h
+    cases hd : dumpList std false cV1 xs <;> simp [hd, Except.map] at h
+    subst h; simp [toJ]
 
 theorem rt_optSome (std : Std) (t : Ty) (v : PyVal) (hn : nonNullTy t = true) (hc : Conf std t v) (ih : RT1 std t v) :
     RT1 std (.optional t) v := by
@@ -500,6 +714,15 @@ theorem roundtrip (std : Std) (laws : StdLaws std) (t : Ty) (v : PyVal) (hc : Co
   | vtuple t xs _ ih => exact rt_vtuple std t xs ih
   | dict t kvs hnd _ ih => exact rt_dict std t kvs hnd ih
   | inst ci ftys vals hp hlen _ ih => exact rt_inst std ci ftys vals hp hlen ih
+  | bytes b => exact rt_bytes std laws b
+  | bytearray b => exact rt_bytearray std laws b
+  | set t xs hh hd _ ih => exact rt_set std t xs hh hd ih
+  | frozenset t xs hh hd _ ih => exact rt_frozenset std t xs hh hd ih
+  | tuple ts xs hne hl _ ih => exact rt_tuple std ts xs hne hl ih
+  | defaultdict t kvs hnd _ ih => exact rt_mapk std .defaultdict false t kvs (dumpV_defaultdict std cV1) hnd ih
+  | ordereddict t kvs hnd _ ih => exact rt_mapk std .ordereddict true t kvs (dumpV_ordereddict std cV1) hnd ih
+  | literal vs l hm hr => exact rt_literal std vs l hm hr
+  | ntuple name fields xs hl _ ih => exact rt_ntuple std name fields xs hl ih
 
 
 /-- at the top level: `fromdict(cls, json(asdict(x))) = x` for a main class that declares the v1 Meta -/
